@@ -102,28 +102,32 @@ static void part_factory(const std::vector<size_t>& ns, const std::string& zfile
         if (R.out_of_time()) { R.not_completed = kase; return; }
         const double s = wall ? 5.8e7 : 0.0, xi = 0.1, crad = coll == 0 ? 0.0 : coll == 1 ? 0.004 : 0.05 /* wider than the pipe: not a collimator */;
         std::string f = file ? zfile : std::string("");
-        if (file && n > 40) f = "";   // the table has 40 rows; longer grids are C17's business
         auto got = makeImpedance(n, nullptr, fmax, Rb, frev, gap, csr, s, xi, crad, f);
-        Impedance want(n, fmax); bool any = false;
+        // reference: the contributions built separately and added sample by sample in the harness (not through Impedance::operator+=),
+        // on the requested grid of n samples; a table shorter than the grid contributes to the samples it has, a longer one is cut
+        std::vector<impedance_t> want(n, impedance_t(0, 0)); bool any = false;
+        auto add = [&](const Impedance& c) { any = true; const auto& v = c.impedance(); for (size_t i = 0; i < std::min<size_t>(n, v.size()); i++) want[i] += v[i]; };
         const double radius = std::fabs(gap / 2);
         if (gap != 0) {
-            if (csr) { any = true; if (gap > 0) want += ParallelPlatesCSR(n, f0, fmax, gap); else want += FreeSpaceCSR(n, f0, fmax); }
-            if (s > 0 && xi >= -1) { any = true; want += ResistiveWall(n, frev, fmax, physcons::c / frev, s, xi, radius); }
-            if (0 < crad && crad < radius) { any = true; want += CollimatorImpedance(n, fmax, radius, crad); }
+            if (csr) { if (gap > 0) add(ParallelPlatesCSR(n, f0, fmax, gap)); else add(FreeSpaceCSR(n, f0, fmax)); }
+            if (s > 0 && xi >= -1) add(ResistiveWall(n, frev, fmax, physcons::c / frev, s, xi, radius));
+            if (0 < crad && crad < radius) add(CollimatorImpedance(n, fmax, radius, crad));
         }
-        if (!f.empty()) { any = true; want += Impedance(f, fmax); }
+        if (!f.empty()) add(Impedance(f, fmax));
         R.eval(kase, got ? zhash(got->impedance(), kase) : mcx::fnvs(kase + "null"), !any);
         if (!any) { if (got != nullptr) R.violate("C16/factory/something-from-nothing", kase, "no contribution selected but an impedance was returned"); continue; }
         if (got == nullptr) { R.violate("C16/factory/nothing-returned", kase, "contributions selected but nullptr returned"); continue; }
+        if (got->impedance().size() != n || got->nFreqs() != n) {
+            R.violate("C16/factory/sample-count", kase, "size " + std::to_string(got->impedance().size()) + " nFreqs " + std::to_string(got->nFreqs()) + " requested " + std::to_string(n)); continue; }
         double worst = 0;
-        if (!same(got->impedance(), want.impedance(), worst)) {
+        if (!same(got->impedance(), want, worst)) {
             char d[160]; snprintf(d, 160, "factory result differs from the sum of the separately built contributions (relative %.3g)", worst);
             R.violate(std::string("C16/factory/not-the-sum") + (gap < 0 ? "/gap<0" : gap > 0 ? "/gap>0" : "/gap=0"), kase, d);
         }
         R.maxnum("worst_factory_vs_sum", worst);
         if (f.empty()) wellformed(*got, n, "C16/factory", kase);   // a user-supplied table is not a model: anything may be in it
     }
-    R.bound_done("factory: sample counts x gap{<0,0,>0} x CSR x wall x collimator{none, inside, wider than pipe} x file, with R_bend independent of f_rev");
+    R.bound_done("factory: sample counts x gap{<0,0,>0} x CSR x wall x collimator{none, inside, wider than pipe} x file (40 rows: longer, equal and shorter than the grid), with R_bend independent of f_rev; reference summed sample by sample in the harness");
 }
 
 // causality through the real wake computation: impulse response of each model
